@@ -1159,6 +1159,7 @@ func verifPartitionSMF(m Message) (n int) {
 //@ ensures [P:C10] !old(w.headerWritten) && result == nil ==> w.output.wr.wfailed == old(w.output.wr.wfailed)
 //@ ensures [P:C03] w.output.size == old(w.output.size) + int64(w.output.wr.wlen - old(w.output.wr.wlen)) && w.output.wr.wlen >= old(w.output.wr.wlen)
 //@ ensures [H] w.headerWritten && (old(w.headerWritten) ==> (result == old(w.error) && w.output.wr.wlen == old(w.output.wr.wlen)))
+//@ ensures [H] !old(w.headerWritten) ==> w.error == (result == nil ? old(w.error) : result)
 //@ ensures [P:C03] forall i int :: 0 <= i && i < old(w.output.wr.wlen) ==> w.output.wr.wdata[i] == old(w.output.wr.wdata[i])
 
 // Write: one event with the pending delta, which is then reset; a header failure blocks the writer
@@ -1223,3 +1224,26 @@ func verifPartitionSMF(m Message) (n int) {
 //@ loop 0 invariant old(wfTrack(*t)) ==> forall i int :: 0 <= i && i < len(*t) ==> !isEOT((*t)[i].Message)
 //@ loop 0 invariant forall k int :: 0 <= k && k < len(msgs) ==> !isEOT(msgs[k])
 //@ loop 0 decreases len(msgs) - rangeindex
+
+// ---------------------------------------------------------------- SMF.WriteTo (C10, C03)
+// messages stored in tracks are non-empty; sizes stay inside the format's limits (domain of C01/C03)
+//@ macro tracksOK(s) = len(s.Tracks) >= 1 && len(s.Tracks) <= 65535 && forall i int, j int :: (0 <= i && i < len(s.Tracks) && 0 <= j && j < len(s.Tracks[i])) ==> (len(s.Tracks[i][j].Message) >= 1 && len(s.Tracks[i][j].Message) < 65536)
+
+//@ macro wtInv(s, wr, f) = writerInv(wr) && wr.SMF == s && wr.output.wr == f && wr.headerWritten && wr.error == nil && len(s.Tracks) == old(len(s.Tracks)) && s.TimeFormat == old(s.TimeFormat) && f.wlen >= old(f.wlen) && wr.output.size == int64(f.wlen - old(f.wlen)) && (forall i int :: 0 <= i && i < old(f.wlen) ==> f.wdata[i] == old(f.wdata[i]))
+
+//@ func (*SMF).WriteTo
+//@ requires f != nil && f.wlen >= 0 && tracksOK(s) && (typeof(s.TimeFormat) == typeid(MetricTicks) || typeof(s.TimeFormat) == typeid(TimeCode))
+//@ requires forall i int :: 0 <= i && i < len(s.Tracks) ==> len(s.Tracks[i]) < 100000
+//@ modifies *s, f.wdata, f.wlen, f.wfailed
+//@ ensures [P:C10] err == nil ==> (f.wfailed == old(f.wfailed))
+//@ ensures [P:C10] (f.wfailed && !old(f.wfailed)) ==> err != nil
+//@ ensures [P:C03] err == nil ==> size == int64(f.wlen - old(f.wlen))
+//@ ensures [P:C03] f.wlen >= old(f.wlen) && forall i int :: 0 <= i && i < old(f.wlen) ==> f.wdata[i] == old(f.wdata[i])
+//@ loop 0 invariant -1 <= rangeindex && rangeindex < len(s.Tracks) && len(s.Tracks) == old(len(s.Tracks)) && s.TimeFormat == old(s.TimeFormat) && s.NoRunningStatus == old(s.NoRunningStatus)
+//@ loop 0 invariant f.wlen == old(f.wlen) && f.wfailed == old(f.wfailed) && f.wdata == old(f.wdata)
+//@ loop 0 decreases len(s.Tracks) - rangeindex
+//@ loop 1 invariant -1 <= rangeindex && rangeindex < len(s.Tracks) && wtInv(s, wr, f) && f.wfailed == old(f.wfailed) && len(wr.currentChunk.data) == 0
+//@ loop 1 decreases len(s.Tracks) - rangeindex
+//@ loop 2 invariant -1 <= rangeindex && wtInv(s, wr, f) && f.wfailed == old(f.wfailed) && 0 <= rangeindex$1 + 1 && rangeindex$1 + 1 < len(s.Tracks)
+//@ loop 2 invariant len(wr.currentChunk.data) <= 70000 * (rangeindex + 1)
+//@ loop 2 decreases 1000000 - rangeindex
